@@ -18,9 +18,10 @@ RULES = {
     "R5": "what load_h5 restores goes through the constructor's encoders: they join on the identifying columns and hand the mapping columns back unconverted (C01.R1 run here)",
     "R4": "load re-uses the stored mappings (constructor receives them; the supplied-mapping branch builds its table from the mapping verbatim)",
     "R6": "the supplied-mapping branch of both encoders builds the id table from the mapping's columns verbatim (no pruning, re-sorting or renumbering of stored mappings on load; C03.R5 run here)",
+    "R8": "the validator the constructor applies to a stored mapping accepts every mapping the encoders produce: it judges the DISTINCT ids (several control conditions share id -1) (the validator clause of C01.R5 run here)",
     "R7": "what save_h5 writes is the screen as it is now: no getter of Screen keeps a result derived from state that set_observed or a view (Plate.merge) mutates without being reset by it",
 }
-MIN = {"R1": 16, "R4": 3, "R5": 6, "R6": 4, "R7": 2}
+MIN = {"R1": 16, "R4": 3, "R5": 6, "R6": 4, "R7": 2, "R8": 1}
 TRUSTED = ["h5py stores and returns numpy arrays of float64/int64/bool/bytes unchanged", "np.char.encode/decode are inverse for utf-8"]
 TECHNIQUE = "writer/reader table extraction from the syntax tree and set comparison against the constructor's parameter list"
 LEVEL_TEXT = ("For every field of every screen at once: the loader restores it from the key under which the writer stored "
@@ -104,7 +105,12 @@ def r7(ctx):
     common.no_stale_memo(ctx, "R7")
 
 
-RULE_FUNCS = [r1, r4, r5, r_br6, r7]
+def r8(ctx):
+    from . import C01
+    ctx.borrow(C01.validator_definition, "R8")
+
+
+RULE_FUNCS = [r1, r4, r5, r_br6, r7, r8]
 
 
 def _rep(a, b):
@@ -116,6 +122,8 @@ def _rep(a, b):
 
 
 WITNESSES = [
+    ("validator judges all values, not the distinct ones", "batchie.data",
+     _rep("        return np.all(np.sort(np.unique(arr)) == np.arange(np.unique(arr).shape[0]))", "        return np.all(np.sort(arr) == np.arange(arr.shape[0]))"), ["R8"]),
     ("encoded plate names kept on the screen", "batchie.data",
      _rep("    def set_observed(self, selection_mask: ArrayType, observations: ArrayType):", "    def _encoded_plate_names(self):\n        if getattr(self, \"_enc_plates\", None) is None:\n            self._enc_plates = np.char.encode(self.plate_names)\n        return self._enc_plates\n\n    def set_observed(self, selection_mask: ArrayType, observations: ArrayType):"), ["R7"]),
     ("load_h5 drops treatment_mapping", "batchie.data",
